@@ -519,6 +519,9 @@ class XInterp(Interp):
                     if fc == 'unsat' and fn != 'unsat': r = False
                     elif fn == 'unsat' and fc != 'unsat': r = True
         if r is None:
+            vs_ = [s._eval_at(c, pt) for pt in s._samples()]
+            if True in vs_ and False in vs_:
+                s.__dict__.setdefault('forked_conds', []).append(c)      # a two-sided decision with a witness point on either side
             r = Interp.decide(s, c)
         memo[k] = r
         nk = z3.simplify(z3.Not(c)).get_id(); memo[nk] = not r
